@@ -11,6 +11,8 @@ import (
 var Registry = map[string]func(*core.Ctx){
 	"C01": C01,
 	"C04": C04,
+	"C05": C05,
+	"C06": C06,
 	"C08": C08,
 	"C09": C09,
 	"C10": C10,
